@@ -117,7 +117,7 @@ Proof.
     destruct (mk_device_invG C07.ex_compress (bslit "d0") [mkPlug (bslit "p1") (Some (bslit "n1"))]
                [(PM_LOG_IN, [Send (bslit "login\n"); Expect (bslit "ok")]); (PM_POWER_ON, [Send (bslit "on %s\n"); Expect (bslit "done")])] 5000000 0
                C07.C07_cfg_ok_example) as [H1 H2].
-    split; [exact H1|]. split; [exact H2|reflexivity].
+    split; [exact H1|]. split; [exact H2|]. split; reflexivity.
 Qed.
 (* the same device behind a tcp transport (telnet filter active) *)
 Definition ex_st_tcp : daemon :=
